@@ -174,9 +174,14 @@ def shard_holes(desc, rec):
             k = rng.choice(before_hole)
             how = "set" if (k in C.SETTER and rng.random() < 0.4) else "replace"
         ops = [C.op_add(rng, k, rng.choice([0, 1]), how=how)]
-        # continuation in the same session: remove a block (valid on such files); its effect must be exactly
-        # that of the removal alone
-        if rng.random() < 0.7:
+        if how in ("replace", "set") and rng.random() < 0.4:
+            # clear the way (remove everything behind the hole, then the block itself) and submit the refused
+            # object again, edited in place meanwhile, as a plain add
+            for v_ in after_hole:
+                ops.append({"op": "remove", "kind": v_, "code": rc.TYPE_CODES[v_]})
+            ops.append({"op": "remove", "kind": k, "code": rc.TYPE_CODES[k]})
+            ops.append(dict(C.op_add(rng, k, 1, how="add"), resubmit=True))
+        elif rng.random() < 0.7:
             victim = rng.choice(before_hole + after_hole)
             ops.append({"op": "remove", "kind": victim, "code": rc.TYPE_CODES[victim], "hole_ok": True})
         h = C.History(rec, orc, init, ops, "holes")
